@@ -1,6 +1,7 @@
 (* C17: the generator and the converter AS THEY WERE before the repairs
      fix: convert-drops-interface-implements, convert-drops-repeatable, convert-drops-specified-by,
-          convert-drops-inputvalue-deprecation, deprecated-reason-null-panic, typeref-kind-name-collision
+          convert-drops-inputvalue-deprecation, deprecated-reason-null-panic, typeref-kind-name-collision,
+          root-operation-invented (generate_v1: only the merge differs, Model.merge_base_doc false)
    (frozen copy of the affected definitions of Model.v at that time; everything else is shared with
    Model.v).  Only the historical *_refuted theorems of Properties.v refer to this file. *)
 From Coq Require Import String.
@@ -131,8 +132,10 @@ End GenV0.
 Definition type_by_name_v0 (n : name) (ts : list itype) : option itype :=
   find_last (fun t => bytes_eqb (it_name t) n) ts.
 
+(* (the merge of that time applied the default root operation type names to documents with a schema definition
+   too -- fix root-operation-invented came later -- which is [merge_base_doc false]) *)
 Definition generate_v0 (S : schema) : option idata :=
-  let M := merge_base S in
+  let M := merge_base_doc false S in
   let idx := build_index S M in
   let dds := s_directives M in
   let ts := flat_map (gen_type_v0 idx dds (s_types M)) (s_types M) in
@@ -151,6 +154,9 @@ Definition generate_v0 (S : schema) : option idata :=
     end
   end.
 
+
+(* the generator of today on the merge as it was before fix root-operation-invented *)
+Definition generate_v1 (S : schema) : option idata := generate_doc false S.
 
 Definition import_input_v0 (i : iinput) : cres inputvalue_def :=
   cbind (import_type (ii_type i)) (fun t =>
